@@ -261,19 +261,25 @@ func (m *Model) expectedPerio() map[time.Duration]int {
 
 // checkPerioRegistration: C03, second sentence (fault-free population only).
 func (s *Sim) checkPerioRegistration(ctx *StepCtx) {
-	if !(s.oracleOn("C03") && (s.cfg.Profile == "C03" || s.cfg.Profile == "C15")) || s.model.perioTaint || len(s.cfg.Faults) > 0 || s.firedM["dp.reject"]+s.firedM["dp.latefail"]+s.firedM["dp.empty"] > 0 {
+	prop := "C03"
+	if s.cfg.Profile == "C05" {
+		// the periodic registrations of the other sessions are part of "every other
+		// session is untouched": judged with the same comparison under C05's name
+		prop = "C05"
+	}
+	if !(s.oracleOn(prop) && (s.cfg.Profile == "C03" || s.cfg.Profile == "C15" || s.cfg.Profile == "C05")) || s.model.perioTaint || len(s.cfg.Faults) > 0 || s.firedM["dp.reject"]+s.firedM["dp.latefail"]+s.firedM["dp.empty"] > 0 {
 		return
 	}
 	got := s.perioGroups()
 	want := s.model.expectedPerio()
 	for p, n := range want {
 		if got[p] != n {
-			s.violate("C03", "perio.registered", "perio:registration", "period %v: %d URR(s) registered for periodic querying, expected %d (all: got %v want %v)", p, got[p], n, got, want)
+			s.violate(prop, "perio.registered", "perio:registration", "period %v: %d URR(s) registered for periodic querying, expected %d (all: got %v want %v)", p, got[p], n, got, want)
 		}
 	}
 	for p, n := range got {
 		if want[p] == 0 && n > 0 {
-			s.violate("C03", "perio.not-registered", "perio:spurious-registration", "period %v: %d URR(s) registered although none has the periodic trigger (got %v want %v)", p, n, got, want)
+			s.violate(prop, "perio.not-registered", "perio:spurious-registration", "period %v: %d URR(s) registered although none has the periodic trigger (got %v want %v)", p, n, got, want)
 		}
 	}
 }
